@@ -24,13 +24,20 @@ Backward(p, mN) == [i \in 1..Len(p) |-> mN + (TotalBurn(p) - BurnUpTo(p, i))]
 
 Profiles == UNION {[1..n -> Alphabet] : n \in 2..MaxLen}
 
-VARIABLES prof, dir, anchor, mass
-mvars == <<prof, dir, anchor, mass>>
+\* The range flown per kg of fuel is GROUND speed / fuel flow: with wind the
+\* true airspeed differs from the ground speed (tail wind: TAS = GS - 30 m/s,
+\* head wind: GS + 30, shear: alternating), and the profile p - defined over
+\* ground speeds - and hence the mass vector do not depend on it.
+Winds == {"calm", "tail", "head", "shear"}
+WindAt(w, i) == CASE w = "calm" -> 0 [] w = "tail" -> 30 [] w = "head" -> -30 [] w = "shear" -> (IF i % 2 = 0 THEN 30 ELSE -30)
+VARIABLES prof, dir, anchor, wind, mass
+mvars == <<prof, dir, anchor, wind, mass>>
 MInit == /\ prof \in Profiles /\ dir \in {"forward", "backward"} /\ anchor \in {1000, 1500}
+         /\ wind \in Winds
          /\ mass = <<>>
 MNext == /\ mass = <<>>
          /\ mass' = IF dir = "forward" THEN Forward(prof, anchor) ELSE Backward(prof, anchor)
-         /\ UNCHANGED <<prof, dir, anchor>>
+         /\ UNCHANGED <<prof, dir, anchor, wind>>
 MSpec == MInit /\ [][MNext]_mvars
 
 Done == mass # <<>>
